@@ -52,7 +52,7 @@ def check_C01(fx, eng, rep, tier):
                        'on a word that satisfies the admission predicate of its mode and must apply exactly that mode\'s delta; '
                        'a release applies the inverse delta; nothing else writes a lock word. These are the premises of the '
                        'inductive argument (DESIGN.md 3.0) that no two conflicting grants coexist, for any number of threads and any interleaving.')
-    rep.rule_text = 'C01.ADM / C01.REL / C01.STORE / C01.ROWS / C01.WHO / C10.UPG / C10.DOWN / C13.LOCKEXIT (+ MCS.* for MCSLock); one instance per (function, path class, write)'
+    rep.rule_text = 'C01.ADM / C01.REL / C01.CONV / C01.STORE / C01.ROWS / C01.WHO / C01.TYPE / C10.UPG / C10.DOWN / C13.LOCKEXIT (+ MCS.*, C12.REL for MCSLock); one instance per (function, path class, write)'
     rep.trusted = ['clang 14 AST/CFG', 'cxxfacts extractor', 'induction over atomic steps (DESIGN.md 3.0)', 'S counter never overflows its field']
     rep.assumptions = ['fewer than 2^62 / 2^30 / 2^15 simultaneous shared holders', 'MCS: user-space addresses fit in 47 bits']
     res = _locks(fx, eng, rep, ALL_LOCKS, ['C01.', 'C12.REL', 'C10.UPG', 'C10.DOWN', 'C13.LOCKEXIT', 'MCS.', 'C07.CONV', 'C07.FACTORY', 'C07.WHO'],
@@ -83,12 +83,15 @@ def check_C07(fx, eng, rep, tier):
     rep.explanation = ('Typestate of the guard classes: ownership field derived from operator bool; constructors, move operations, '
                        'destructors, conversions and factories are checked path-sensitively for "owning <=> exactly one grant, released exactly once". '
                        'Type-level facts (non-copyable, nothrow-movable, private release functions) are compile-fail witnesses.')
-    rep.rule_text = 'C07.CTOR / C07.DTOR / C07.ASSIGN / C07.FACTORY / C07.CONV / C07.WHO / C07.TYPE per guard class'
+    rep.rule_text = 'C07.CTOR / C07.DTOR / C07.ASSIGN / C07.MEMBER / C07.FACTORY / C07.CONV / C07.WHO / C07.TYPE per guard class; C01.TYPE per lock class'
     rep.trusted = ['clang 14 AST/CFG', 'clang++/g++ front ends for the witnesses']
     import guards
     guards.check_guards(fx, eng, rep, ALL_LOCKS, lock_sinks(fx, eng, ALL_LOCKS))
     # "released" means the release function really gives the grant back: its write applies the inverse delta (C01.REL / MCS.CLR)
-    _locks(fx, eng, rep, ALL_LOCKS, ['C07.', 'C01.ROWS', 'C01.REL', 'MCS.CLR', 'C01.TYPE'], {'PessimisticLock': 10, 'OptimisticLock': 14, 'MCSLock': 8})
+    # the release writes are exact only while conflicting grants exclude each other (the X release is a plain store: a grant
+    # admitted beside an X holder is wiped by it, and released a second time by its own guard): the admission rows are premises
+    _locks(fx, eng, rep, ALL_LOCKS, ['C07.', 'C01.ROWS', 'C01.REL', 'MCS.CLR', 'C01.TYPE', 'C01.ADM', 'C01.STORE', 'C01.CONV', 'C10.UPG', 'C10.DOWN', 'MCS.UPG', 'MCS.DOWN', 'MCS.WAIT'], {'PessimisticLock': 10, 'OptimisticLock': 14, 'MCSLock': 8})
+    _layout_config_rule(fx, rep, LOCK_TUS if 'LOCK_TUS' in globals() else ['pessimistic_lock.cpp', 'optimistic_lock.cpp', 'mcs_lock.cpp'])
 
 
 def check_C08(fx, eng, rep, tier):
@@ -126,7 +129,7 @@ def check_C13(fx, eng, rep, tier):
     m, sink = res['OptimisticLock']
     n = 0
     for it in sink.items:
-        take = it['rule'].startswith('C13.') or ('PrepareRead' in it['key'] and it['rule'].startswith(('C01.', 'C08.ACQ', 'C03.ORDER'))) or \
+        take = it['rule'].startswith(('C13.', 'C01.TYPE')) or ('PrepareRead' in it['key'] and it['rule'].startswith(('C01.', 'C08.ACQ', 'C03.ORDER'))) or \
             ('CompositeGuard' in it['key'] and it['rule'].startswith(('C03.', 'C07.', 'C01.ROWS')))
         if take:
             n += 1
@@ -190,6 +193,7 @@ def check_C09(fx, eng, rep, tier):
     # the version to publish travels with the exclusive guard: its move operations carry every member over
     import guards
     guards.check_guards(fx, eng, rep, ['OptimisticLock'], res, only=('XGuard',), typestate_only=True)
+    _layout_config_rule(fx, rep, ['optimistic_lock.cpp'])
     rep.floor('C09 obligations', n, 30)
 
 
@@ -214,7 +218,7 @@ def check_C12(fx, eng, rep, tier):
     rep.assumptions = ['not decided: stale pointers held by another thread (protocol-level argument)']
     # the recycle decision is taken on the word the release write certified: a release that clears more than its own
     # contribution (MCS.CLR) hands the node back while other members still refer to it
-    _locks(fx, eng, rep, ['MCSLock'], ['C12.', 'C01.WHO', 'MCS.CLR', 'C01.MASK', 'C01.TYPE'], {'MCSLock': 12})
+    _locks(fx, eng, rep, ['MCSLock'], ['C12.', 'C01.WHO', 'MCS.LINK', 'MCS.UPG', 'MCS.DOWN', 'MCS.CONV', 'MCS.INH', 'MCS.CLR', 'C01.MASK', 'C01.TYPE'], {'MCSLock': 12})
 
 
 def check_C02(fx, eng, rep, tier):
@@ -232,8 +236,37 @@ def check_C02(fx, eng, rep, tier):
 
 
 # ---------------------------------------------------------------------------------- thread / epoch
+def _layout_config_rule(fx, rep, tus):
+    """C01.TYPE (layout): the data members of the library's classes are the same with and without NDEBUG.  The library is compiled
+    separately from its clients (Release builds define NDEBUG, a client may not): a member that exists in one of the two
+    configurations only shifts every later member between the inline functions of the headers and the compiled member functions."""
+    import facts as F2
+    try:
+        fx2 = F2.extract(tus, extra_defs=['!NDEBUG'], repo=F2.REPO)
+    except AnalysisBroken as ex:
+        rep.unsupported('C01.TYPE', 'class layouts do not depend on NDEBUG', '', str(ex)[:120])
+        return
+    bad = []
+    for name, r in fx.records.items():
+        r2 = fx2.records.get(name)
+        if r2 is None:
+            continue
+        a = [(f['name'], f['type'].get('ct')) for f in r['fields']]
+        b = [(f['name'], f['type'].get('ct')) for f in r2['fields']]
+        if a != b:
+            bad.append((name, r, sorted(set(a) ^ set(b))))
+    if bad:
+        for name, r, diff in bad:
+            rep.violation('C01.TYPE', '%s has the same data members with and without NDEBUG' % name.split('::', 2)[-1], '%s:%s' % (r['file'], r['line']),
+                          'members that exist in one configuration only: %s - a client and the library compiled with different NDEBUG settings disagree on the offsets of the members behind them' % diff)
+    else:
+        rep.ok('C01.TYPE', 'class layouts do not depend on NDEBUG', '', '%d classes compared' % len(fx.records))
+
+
 def _take(rep, sink, prefixes, only=None):
     n = 0
+    if getattr(sink, 'broken', None) and sink.broken not in rep.broken:
+        rep.broken.append(sink.broken)     # the rules could not be applied as a whole (what was decided before that is still reported)
     for it in sink.items:
         if any(it['rule'].startswith(p) for p in prefixes) and (only is None or only(it)):
             n += 1
@@ -331,7 +364,7 @@ def check_C04(fx, eng, rep, tier):
     rep.assumptions = ['visibility of the relaxed pin store to the scan is read as happens-before ("completely created before")']
     n = _take(rep, sink, ['C04.', 'C16.SORT', 'C16.MIN'])
     # a slot is protected by its owner's pin only if no second live thread owns the same slot: the uniqueness rows of the IDs
-    n += _take(rep, sink2, ['C15.ORDER', 'C15.SYNC', 'C05.INIT', 'C05.WHO', 'C05.CLAIM', 'C14.FREE'])
+    n += _take(rep, sink2, ['C15.ORDER', 'C15.SYNC', 'C15.LIFE', 'C05.INIT', 'C05.WHO', 'C05.CLAIM', 'C14.FREE'])
     _thread_fns(rep, fx, EPOCH_TUS)
     rep.floor('C04 obligations', n, 25)
 
@@ -346,11 +379,12 @@ def check_C16(fx, eng, rep, tier):
                        'skips only the sentinel and expired slots and appends cur+1 and cur unconditionally, so without guards the list is {cur+1, cur}.')
     rep.rule_text = 'C16.INIT / C16.STEP / C16.MIN / C16.SORT + C04.SCAN / C04.ENTER / C04.PUBLISH'
     rep.trusted = ['clang 14 AST/CFG', 'single coordinator', 'std::sort/unique/erase semantics']
-    n = _take(rep, sink, ['C16.', 'C04.SCAN', 'C04.ENTER', 'C04.PUBLISH', 'C04.GUARD', 'C04.TYPE', 'C20.ALLOC', 'C17.OWN', 'C17.PUB'])
+    # "reclamation can progress" for every number of forwards: the retirement walk frees what nobody refers to (C20.WALK / KEEP / RETIRE)
+    n = _take(rep, sink, ['C16.', 'C04.SCAN', 'C04.ENTER', 'C04.PUBLISH', 'C04.GUARD', 'C04.TYPE', 'C20.ALLOC', 'C20.WALK', 'C20.KEEP', 'C20.RETIRE', 'C17.FREE', 'C17.OWN', 'C17.PUB'])
     # every epoch property rests on one slot per live thread: the uniqueness rows of the thread IDs are premises
     import ids as _ids
     _r2, _sink2 = _ids.analyse(fx, eng)
-    n += _take(rep, _sink2, ['C15.ORDER', 'C15.SYNC', 'C05.INIT', 'C05.WHO', 'C05.CLAIM', 'C14.FREE'])
+    n += _take(rep, _sink2, ['C15.ORDER', 'C15.SYNC', 'C15.LIFE', 'C05.INIT', 'C05.WHO', 'C05.CLAIM', 'C14.FREE'])
     _thread_fns(rep, fx, EPOCH_TUS)
     rep.floor('C16 obligations', n, 15)
 
@@ -370,7 +404,7 @@ def check_C17(fx, eng, rep, tier):
     # every epoch property rests on one slot per live thread: the uniqueness rows of the thread IDs are premises
     import ids as _ids
     _r2, _sink2 = _ids.analyse(fx, eng)
-    n += _take(rep, _sink2, ['C15.ORDER', 'C15.SYNC', 'C05.INIT', 'C05.WHO', 'C05.CLAIM', 'C14.FREE'])
+    n += _take(rep, _sink2, ['C15.ORDER', 'C15.SYNC', 'C15.LIFE', 'C05.INIT', 'C05.WHO', 'C05.CLAIM', 'C14.FREE'])
     from witness import run_witness
     w = run_witness(fx.flags, ['dbgroup/thread/epoch_manager.hpp'],
                     [('second is const vector&', 'std::is_same_v<decltype(std::declval<dbgroup::thread::EpochManager &>().GetProtectedEpochs().second), const std::vector<size_t> &>', '')])
@@ -394,7 +428,7 @@ def check_C20(fx, eng, rep, tier):
     # every epoch property rests on one slot per live thread: the uniqueness rows of the thread IDs are premises
     import ids as _ids
     _r2, _sink2 = _ids.analyse(fx, eng)
-    n += _take(rep, _sink2, ['C15.ORDER', 'C15.SYNC', 'C05.INIT', 'C05.WHO', 'C05.CLAIM', 'C14.FREE'])
+    n += _take(rep, _sink2, ['C15.ORDER', 'C15.SYNC', 'C15.LIFE', 'C05.INIT', 'C05.WHO', 'C05.CLAIM', 'C14.FREE'])
     _thread_fns(rep, fx, EPOCH_TUS)
     rep.floor('C20 obligations', n, 15)
 
@@ -412,7 +446,7 @@ def check_C19(fx, eng, rep, tier):
     rep.rule_text = 'C19.CONST / C19.NOMUT / C19.TLS / C19.DEPS / C19.REJECT per instantiation (8)'
     rep.trusted = ['clang 14 AST/CFG of the instantiated templates', 'clang++ / g++ for the witnesses', 'allow-listed std distributions keep no state between calls']
     # equal parameters give equal outputs only if every member that changes a parameter rebuilds all the state derived from it
-    n = _take(rep, sink, ['C19.', 'C06.DENOM', 'C06.BUILD'])
+    n = _take(rep, sink, ['C19.', 'C06.DENOM', 'C06.BUILD', 'C06.DEFAULT', 'C06.PIN'])
     for f in fx.functions.values():
         if 'Zipf' in f['name']:
             rep.saw_fn(f)
